@@ -77,6 +77,7 @@ func drawConfig(rt *rapid.T, p *profile) worldConfig {
 	if p.mixedDepth && cfg.InvDepth >= 1 {
 		cfg.MixedDepth = rapid.Bool().Draw(rt, "mixedDepth")
 	}
+	cfg.NestedWorkerIDs = cfg.NWorkers >= 2 && rapid.IntRange(0, 3).Draw(rt, "nestedWorkerIDs") == 0
 	return cfg
 }
 
